@@ -252,7 +252,9 @@ func Explore(P *Program, pkg *ssa.Package, spec HarnessSpec, nworkers int, solve
 					st.Samples = append(st.Samples, res.sample)
 				}
 				queue = append(queue, res.forks...)
-				if len(st.Errors) > 20 || len(st.Violations) >= 25 {
+				if len(st.Errors) > 20 || len(st.Violations) >= 25 || len(st.Inconclusive) >= 3 {
+					// (an exploration that keeps meeting queries no solver answers is inconclusive
+					// already: going on would only add minutes per such query)
 					stop = true
 				}
 				mu.Unlock()
